@@ -14,7 +14,7 @@
    [cfg_ok cfg] (decidable): distinct binary operators, function / constant names distinct, constants are not numbers.
    Purity is built into the model: operators and static functions are functions of their operands. *)
 From P2 Require Import Base.Prelude Sem.Num Lex.Token Syn.Ast Syn.Parse Syn.Render Gen.Generic Gen.GenericProofs
-  Gen.Instances Gen.InstanceProofs Generated.ExampleCfg Syn.Full Gen.GenericFull Gen.GenericFullProofs Gen.TextExample.
+  Gen.Instances Gen.InstanceProofs Generated.ExampleCfg Syn.Full Gen.GenericFull Gen.GenericFullProofs Gen.TextExample Syn.RenderComfort Gen.ComfortText.
 From P2 Require Lex.Tok Lex.TokProofs.
 Local Open Scope N_scope.
 
@@ -208,6 +208,26 @@ Theorem C19_float_text : forall tc items r args vals v (opt : bool),
   run_text float_cfg tc opt args (P2.Lex.Tok.layout_text items) vals = ROk v.
 Proof. exact (float_text_correct C19_float_flags_justified C19_float_table_ok). Qed.
 
+(* COMFORT MODE (example/minimal.go calls SetComfort(true): Generated/ExampleCfg.ex_float_comfort): the text of a tree
+   with multiplication signs LEFT OUT and lexemes set tight ([render_comfort], [cspellable]: Syn/RenderComfort.v, C03 -
+   a sign is left out only where the scanner of token.go puts it back:  2a ,  2 a ,  a b ,  2(a) ,  a (b) ,  (a+1)(1-a) )
+   evaluates to what the operators' definitions give for the tree - the value of the explicit products - for every
+   tokenizer configuration, every tree of the fragment, every admissible choice of omissions, optimizer on or off *)
+Theorem C19_generic_text_comfort : forall V (cfg : gcfg V), cfg_ok V cfg = true -> regroup_ok V cfg ->
+  forall tc r ds args vals v (opt : bool),
+    cspellable tc (pcfg_of cfg) r ds = true ->
+    fwf (pcfg_of cfg) r = true -> accepts V cfg args r = true -> length args = length vals ->
+    fdenote cfg (rho_of args vals) r = Some v ->
+    run_text cfg tc opt args (render_comfort (pcfg_of cfg) r ds) vals = ROk v.
+Proof. exact generic_text_comfort_correct. Qed.
+
+Theorem C19_float_text_comfort : forall tc r ds args vals v (opt : bool),
+  cspellable tc (pcfg_of float_cfg) r ds = true ->
+  fwf (pcfg_of float_cfg) r = true -> accepts fl float_cfg args r = true -> length args = length vals ->
+  fdenote float_cfg (rho_of args vals) r = Some v ->
+  run_text float_cfg tc opt args (render_comfort (pcfg_of float_cfg) r ds) vals = ROk v.
+Proof. exact (float_text_comfort_correct C19_float_flags_justified C19_float_table_ok). Qed.
+
 (* ---------- non-vacuity ---------- *)
 (* the commented three-line program of Gen/TextExample.v
      let x = a & b; // bind
@@ -265,6 +285,26 @@ Example C19_nonvacuous_float_regroup :
            [FNegZero] = ROk FNegZero.
 Proof. vm_compute. split; reflexivity. Qed.
 
+(* comfort mode, non-vacuity, with the tokenizer of example/minimal.go (float_tc: comfort flag from the example): the
+   trees of  2*a ,  (a+1)*(1-a) ,  2*(a) ,  a*b  are admissible with the directives that write them
+     2a    (a+1)(1-a)    2(a)    a b
+   they are accepted trees, and at a = 2, b = 4 the texts give 4, -3, 4, 8 - what the explicit texts give *)
+Example C19_nonvacuous_comfort :
+  let pc := pcfg_of float_cfg in
+  let vals := [FFin 1 1; FFin 1 2] in
+  P2.Lex.Tok.c_comfort float_tc = true /\
+  map (fun p => render_comfort pc (fst p) (snd p)) [(cx_2a, cd_2a); (cx_prod, cd_prod); (cx_2pa, cd_2pa); (cx_ab, cd_ab)]
+    = [[50; 97]; [40; 97; 43; 49; 41; 40; 49; 45; 97; 41]; [50; 40; 97; 41]; [97; 32; 98]] /\
+  forallb (fun p => cspellable float_tc pc (fst p) (snd p) && fwf pc (fst p) && accepts fl float_cfg float_args (fst p))
+    [(cx_2a, cd_2a); (cx_prod, cd_prod); (cx_2pa, cd_2pa); (cx_ab, cd_ab)] = true /\
+  map (fdenote float_cfg (rho_of float_args vals)) [cx_2a; cx_prod; cx_2pa; cx_ab]
+    = [Some (FFin 1 2); Some (FFin (-3) 0); Some (FFin 1 2); Some (FFin 1 3)] /\
+  map (fun t => run_text float_cfg float_tc true float_args t vals) [[50; 97]; [40; 97; 43; 49; 41; 40; 49; 45; 97; 41]; [50; 40; 97; 41]; [97; 32; 98]]
+    = [ROk (FFin 1 2); ROk (FFin (-3) 0); ROk (FFin 1 2); ROk (FFin 1 3)] /\
+  map (fun t => run_text float_cfg float_tc false float_args t vals) [[50; 42; 97]; [40; 97; 43; 49; 41; 42; 40; 49; 45; 97; 41]; [50; 42; 40; 97; 41]; [97; 42; 98]]
+    = [ROk (FFin 1 2); ROk (FFin (-3) 0); ROk (FFin 1 2); ROk (FFin 1 3)].
+Proof. vm_compute. repeat split; reflexivity. Qed.
+
 Print Assumptions C19_generic.
 Print Assumptions C19_generic_tokens.
 Print Assumptions C19_generic_text.
@@ -272,6 +312,8 @@ Print Assumptions C19_bool_tokens.
 Print Assumptions C19_bool_text.
 Print Assumptions C19_float_tokens.
 Print Assumptions C19_float_text.
+Print Assumptions C19_generic_text_comfort.
+Print Assumptions C19_float_text_comfort.
 Print Assumptions C19_generic_ast.
 Print Assumptions C19_exec_sound.
 Print Assumptions C19_opt_sound.
